@@ -1826,7 +1826,8 @@ class SSHConnection(SSHPacketHandler, asyncio.Protocol):
         if _verif.sink:
             _verif.emit('pkt_out', conn=self, pkttype=pkttype, seq=seq,
                         payload=orig_payload, wire_len=len(packet) + len(mac),
-                        encrypted=bool(self._send_encryption))
+                        encrypted=bool(self._send_encryption),
+                        written=bool(self._transport))
 
         if self._send_seq == 0xffffffff and not self._send_encryption:
             self._send_seq = 0
